@@ -152,6 +152,9 @@ int ds_diverged(void);      /* an explicit schedule entry named a thread that wa
 int ds_misuse_count(void);  /* unlock by non-owner, join of self / of an unknown id / of a detached or joined thread, wait without the mutex */
 enum { DS_TS_EXITED = 1, DS_TS_JOINED = 2, DS_TS_DETACHED = 4 };
 int ds_thread_state(int ord); /* DS_TS_* bits of thread `ord` after/during a run, -1 if no such thread */
+/* address of the sync object with ordinal `ord` among objects of `type` ('m' 'c' 'o' 'a'); ordinals are given when
+ * a thread first POSTS an operation on the object, which can precede the event that executes it */
+const void *ds_object_addr(char type, int ord);
 int ds_thread_count(void);  /* threads created in the last run, including thread 0 */
 int ds_self_ordinal(void);  /* ordinal of the calling thread, -1 if not a scheduled thread */
 
